@@ -1,7 +1,8 @@
 """C13 - geometry maps are mutually inverse and act column-wise on batches.
 
 Workload: every geometry class of cuqi.geometry (Continuous1D/2D, Image2D in C/F order and visual-only,
-Discrete, the default geometries, MappedGeometry with/without inverse over every base, KLExpansion for
+Discrete, the default geometries, MappedGeometry with/without inverse over every base (element-wise maps and user maps that couple the entries of
+one function value: cumsum, mean shift, reversal, normalisation, softmax), KLExpansion for
 every number of modes, StepExpansion for every admissible (n_grid, n_steps) and projection, KLExpansion_Full,
 CustomKL) on grids with random offsets / spacings / sizes, unequal and degenerate 2D axes; single vectors,
 batches of 1, 2, 7 columns in C / Fortran / strided memory layout, integer and float dtypes; Samples and
@@ -37,12 +38,12 @@ REQUIRED_COUNTERS = {   # about 40 % of what the unchanged tree produces (determ
               "shape_produced_checked": 25000, "shape_reports_checked": 25000, "step_nodes_membership_checked": 120000,
               "step_nonempty_checked": 60000, "one_contribution_nodes_checked": 19000, "projection_idempotence_checked": 5000,
               "samples_conversion_checked": 24000, "array_conversion_checked": 7500, "kl_regrid_stages_checked": 15,
-              "regrid_stages_checked": 6, "refusal_observed": 150, "inadmissible_probed": 24},
+              "regrid_stages_checked": 6, "refusal_observed": 150, "inadmissible_probed": 24, "coupled_map_samples_checked": 500},
     "thorough": {"reference_map_checked": 78000, "roundtrip_checked": 54000, "batch_columns_checked": 600000,
                  "shape_produced_checked": 130000, "shape_reports_checked": 125000, "step_nodes_membership_checked": 890000,
                  "step_nonempty_checked": 450000, "one_contribution_nodes_checked": 100000, "projection_idempotence_checked": 25000,
                  "samples_conversion_checked": 135000, "array_conversion_checked": 42000, "kl_regrid_stages_checked": 70,
-                 "regrid_stages_checked": 30, "refusal_observed": 1000, "inadmissible_probed": 72},
+                 "regrid_stages_checked": 30, "refusal_observed": 1000, "inadmissible_probed": 72, "coupled_map_samples_checked": 3000},
 }
 BUDGET_S = {"quick": 240.0, "thorough": 1500.0}
 
